@@ -745,6 +745,11 @@ def applyComputer (fname : String) (env : Env) (key : String) (value : Val) : Ex
   | "grid_template" => gridTemplate env value
   | "grid_auto" => gridAuto env value
   | "image_orientation" => imageOrientation value
+  -- `image(style, name, value)` (commit e161f80: `border-image-source`, `mask-border-source`,
+  -- `list-style-image`): `background_image(style, name, (value,)); return value` — the same object
+  -- comes back; the lengths inside a gradient object are computed in place, which the value shapes
+  -- of this model (`('none', None)`, `('url', …)`, an opaque gradient) do not show
+  | "image" => .ok value
   | other => .error (.unsupported ("computer function " ++ other))
 
 /-- `if key in COMPUTER_FUNCTIONS: value = COMPUTER_FUNCTIONS[key](self, key, value)`. -/
